@@ -815,4 +815,4 @@ MANIFEST = {
     'design_ref': 'DESIGN.md 3/C19',
 }
 MANIFEST['note'] += (' Also decided here (necessary conditions shared between properties or added after the independent '
-                     'change rounds, DESIGN.md 8.7): PayloadID keeps the octets it is given (from C05), strict ip_network, each connection owns its protect list.')
+                     'change rounds, DESIGN.md 8.7): PayloadID keeps the octets it is given (from C05), strict ip_network, each connection owns its protect list. Rounds 7-8: ordering / joining untyped values are TypeError effects, taint through copies and record fields, loaders read-only.')
